@@ -101,6 +101,9 @@ func c02Run(c *fw.Case, env *fw.Env) *fw.Obs {
 	if c.Seed%7 == 0 && len(t.Cols) > 1 {
 		vs = append(vs, variant{"cli", gen.Shuffle(rng, t.Rows), ingCfg{Chunks: "two", Workers: 8, Store: "badger", Via: "cli"}})
 	}
+	if c.Seed%5 == 1 && len(t.Cols) > 1 {
+		vs = append(vs, variant{"cli-delim", gen.Shuffle(rng, t.Rows), ingCfg{Chunks: "none", Workers: 3, Store: "badger", Via: "cli", Delim: "\u00a6"}})
+	}
 	pkNames := gen.ColNames(t.Cols, p.T.PK)
 	var baseSum []byte
 	var baseStore *mon.MemStore
